@@ -28,6 +28,7 @@ def run(ctx):
     _shared_r4(ctx)
     _shared_r5(ctx)
     _round8(ctx)
+    _round10(ctx)
 
 
 def _run_main(ctx):
@@ -135,3 +136,10 @@ def _round8(ctx):
     with ctx.rule('R11.9', "a dropped Connection closes like a closed one, and a reply plus a close error fit a channel's reply queue (shared with C05)", floor=2) as r:
         A.include(ctx, r, 'c05', 'R05.5', pick=('drop-closes',))
         A.include(ctx, r, 'c05', 'R05.3', pick=('slot/handle-pairing',))
+
+
+def _round10(ctx):
+    """Rules of other properties that are necessary conditions of this one too (found by seeding round 10: two cooperating sites, indirection)."""
+    from rules import arms as A
+    with ctx.rule('R11.10', "a connection close reaches the consumers of every open channel: draining the slot table yields every slot, whichever way its id was chosen (shared with C10)", floor=1) as r:
+        A.include(ctx, r, 'c10', 'R10.3', pick=('drain:',))
